@@ -580,6 +580,45 @@ class Timeout(Exception):
     pass
 
 
+def isolated(fn, arg, timeout=600):
+    """Run fn(arg) in a forked child of this worker and return its (picklable) result: process-wide state left behind
+    by the implementation (class attributes, module globals) cannot leak from one case into the next one.  A child
+    that dies or hangs is a machinery failure."""
+    import pickle
+    import select
+    r, w = os.pipe()
+    pid = os.fork()
+    if pid == 0:
+        code = 0
+        try:
+            os.close(r)
+            data = pickle.dumps(fn(arg))
+            with os.fdopen(w, "wb") as f:
+                f.write(data)
+        except BaseException:       # noqa: BLE001
+            code = 1
+        finally:
+            os._exit(code)
+    os.close(w)
+    chunks = []
+    deadline = time.time() + timeout * WATCHDOG_SCALE
+    with os.fdopen(r, "rb") as f:
+        while True:
+            left = deadline - time.time()
+            if left <= 0 or not select.select([f], [], [], left)[0]:
+                os.kill(pid, signal.SIGKILL)
+                os.waitpid(pid, 0)
+                raise MachineryError("an isolated case did not finish")
+            b = os.read(f.fileno(), 1 << 16)
+            if not b:
+                break
+            chunks.append(b)
+    _, status = os.waitpid(pid, 0)
+    if status != 0 or not chunks:
+        raise MachineryError(f"an isolated case died (status {status})")
+    return pickle.loads(b"".join(chunks))
+
+
 WATCHDOG_SCALE = 10.0     # nominal budgets below are multiplied: a loaded machine must never look like a hang
 
 
